@@ -23,16 +23,43 @@ BP_OBJECTIVES = {
     "binCountAndLowestSkyline": ("bin_count_and_lowest_skyline",
                                  "BinCountAndLowestSkyline"),
 }
-BP_INSTANCES = ["asqas03", "asqas08", "a42", "a04", "a08", "beng01",
-                "cl01_020_01", "cl02_020_03"]
-TSP_INSTANCES = ["burma14", "ulysses16", "gr17", "gr21", "cn11"]
-ATSP_INSTANCES = ["br17", "ftv33", "p43", "ry48p", "ftv35", "gr17", "burma14"]
+# Instance pools are lists of *classes* (storage type, symmetry, structure);
+# a scenario draws its instances from different classes so that every class
+# is met within a few dozen scenarios.
+BP_CLASSES = [["asqas03", "asqas08", "asqas20"],
+              ["a04", "a08", "a42", "a02", "a27"],
+              ["beng01", "beng02", "beng06"],
+              ["cl01_020_01", "cl01_040_03", "cl03_020_02"],
+              ["cl02_020_03", "cl04_020_01", "cl06_020_05"],
+              ["cl05_020_02", "cl07_020_04", "cl08_020_01"],
+              ["cl09_020_01", "cl10_020_03", "cl09_040_02"]]
+TSP_CLASSES = [["burma14", "cn11", "gr17", "gr21"],           # int16, tiny
+               ["ulysses16", "ulysses22"],                    # int32, geo
+               ["bayg29", "fri26", "gr24", "dantzig42"],      # int16, medium
+               ["att48", "berlin52", "hk48", "gr48"]]         # int32, medium
+ATSP_CLASSES = [["br17", "ftv33", "ftv35"], ["p43", "ry48p", "ft53"],
+                ["gr17", "burma14", "bays29"]]
 # from ten teams upwards the earliest-slot decoding of short runs leaves days
 # without a game (byes), which exercises that part of the error count
-TTP_INSTANCES = ["circ4", "circ6", "con4", "gal4", "nl4", "nl6", "sup4",
-                 "circ8", "circ10", "circ12", "nl10", "circ16", "con12",
-                 "nl8"]
-QAP_INSTANCES = ["chr12a", "had12", "nug12", "tai12a", "scr12"]
+TTP_CLASSES = [["circ4", "con4", "gal4", "nl4", "sup4"],
+               ["circ6", "nl6", "circ8", "nl8"],
+               ["circ10", "circ12", "nl10", "con12", "circ16"]]
+QAP_CLASSES = [["chr12a", "had12", "nug12", "tai12a", "scr12", "rou12"],
+               ["lipa20a", "lipa20b", "lipa30a"],    # D symmetric, F not
+               ["tai12b", "tai15b", "tai20b"],       # D asymmetric, > int32
+               ["bur26a", "bur26d", "bur26g"],       # neither, diagonals set
+               ["esc16f", "els19", "esc32e", "chr18b", "esc16a"]]  # extremes
+
+
+def _flat(classes: list) -> list:
+    return [n for c in classes for n in c]
+
+
+BP_INSTANCES = _flat(BP_CLASSES)
+TSP_INSTANCES = _flat(TSP_CLASSES)
+ATSP_INSTANCES = _flat(ATSP_CLASSES)
+TTP_INSTANCES = _flat(TTP_CLASSES)
+QAP_INSTANCES = _flat(QAP_CLASSES)
 # as in instgen/experiment.py every template comes with both slack variants
 INSTGEN_INSTANCES = [("beng01", 0.25), ("beng01", 0.125),
                      ("cl01_020_01", 0.25), ("cl01_020_01", 0.125),
@@ -164,7 +191,13 @@ def make_setup(setup_id: str, budget: int):
         from moptipyapps.tsp.ea1p1_revn import TSPEA1p1revn
         from moptipyapps.tsp.fea1p1_revn import TSPFEA1p1revn
         from moptipyapps.tsp.tour_length import TourLength
-        cons = TSPEA1p1revn if parts[1] == "ea" else TSPFEA1p1revn
+        if parts[1] == "ea":
+            cons = TSPEA1p1revn
+        elif parts[1] == "feah":    # the FEA that also logs its H table
+            def cons(inst):
+                return TSPFEA1p1revn(inst, do_log_h=True)
+        else:
+            cons = TSPFEA1p1revn
         # wiring of examples/tsp_special_algorithms.py (+ improvement log)
         return lambda inst: finish(
             Execution().set_solution_space(
@@ -228,6 +261,15 @@ def all_setups(domains=None) -> list:
     if domains:
         out = [s for s in out if domain_of(s) in domains]
     return out
+
+
+def instance_classes(dom: str) -> list:
+    cl = {"bp": BP_CLASSES, "tsp": TSP_CLASSES, "atsp": ATSP_CLASSES,
+          "ttp": TTP_CLASSES, "ttpmo": TTP_CLASSES,
+          "qap": QAP_CLASSES}.get(dom)
+    if cl is None:
+        return [[i] for i in instances_for(dom)]
+    return [[f"{dom}:{n}" for n in c] for c in cl]
 
 
 def instances_for(dom: str) -> list:
